@@ -1,7 +1,7 @@
 from vp.core import Query
 
 LEVEL = "fault_enumeration"
-UNITS = ["src/core/url.c", "src/core/message.c", "src/core/lmq.c", "src/core/idhash.c", "src/supplemental/http/http_chunk.c", "src/core/aio.c (nni_aio_sys_init)", "src/supplemental/websocket/websocket.c (ws_read_finish_msg)", "src/sp/protocol/pubsub0/sub.c"]
+UNITS = ["src/core/url.c", "src/core/message.c", "src/core/lmq.c", "src/core/idhash.c", "src/supplemental/http/http_chunk.c", "src/core/aio.c (nni_aio_sys_init)", "src/supplemental/websocket/websocket.c (ws_read_finish_msg)", "src/sp/protocol/pubsub0/sub.c", "src/supplemental/http/http_msg.c (nni_http_req_parse / res_parse with failing setters)"]
 RULE = "One query per entry point; WHICH allocation fails is a symbolic variable (the k-th allocation of the call, all k within the path's allocation count), decided by the solver; data symbolic where present."
 BOUNDS = "single fault per call; the entry points listed"
 OUTSIDE = "allocations in units not encoded (platform layer, statistics, threads); double faults; nng_fini global balance"
@@ -42,6 +42,14 @@ def queries(tier):
     WENV = ENV + ["env_aio.c", "env_msg.c"]
     qs.append(Query("allocfail-ws-read-finish-msg", "c16/wsframe.c", tus=["core/list.c"], env=WENV, defs={"FINISH": 1, "NF": 2, "SERVER": 1, "FAILMSG": 1},
                     unwind=30, timeout=300, params={"entry_point": "ws_read_finish_msg", "failing_allocation": "the message for the reassembled frames"}))
+    # HTTP head parser: the connection object's setters fail with NNG_ENOMEM (the parser itself allocates nothing)
+    HREQ = ["GET /a HTTP/1.1\r\nK: v\r\n\r\n", None, None, "A /b HTTP/2\r\nK: v\r\nL: w\r\n\r\n"]
+    for nm, ti, extra in (("req-header1", 0, {"FAILHDR": 1}), ("req-header1of2", 3, {"FAILHDR": 1}), ("req-header2of2", 3, {"FAILHDR": 2}), ("req-uri", 0, {"FAILURI": 1}),
+                          ("res-header1", 0, {"FAILHDR": 1, "RES": 1})):
+        d = {"TPL": ti, "NSYM": 0, "K": 9}
+        d.update(extra)
+        qs.append(Query("allocfail-http-" + nm, "c16/httpmsg.c", tus=["core/list.c"], env=ENV, defs=d, unwind=45, timeout=300, mem_gb=4, allow_pruned=True,
+                        group="~c16/httpmsg.c#fail", params={"entry_point": "nni_http_req_parse / nni_http_res_parse", "failing_allocation": nm}))
     return qs
 
 MANIFEST = {
